@@ -263,6 +263,24 @@ impl MachineState {
         )
     }
 
+    /// The key under which a constant first argument is looked up in a
+    /// `SwitchOnConstant` table. Integers (and integral rationals) that fit a
+    /// fixnum are always indexed under their fixnum key (see
+    /// `constant_key_alternatives`), so a run-time bignum cell holding such a
+    /// value, e.g. the result of `2^60 - 2^60 + 2`, is looked up under that key.
+    #[inline(always)]
+    pub(crate) fn switch_on_constant_key(&self, addr: HeapCellValue) -> HeapCellValue {
+        if addr.get_tag() == HeapCellValueTag::Cons {
+            Literal::try_from((addr, &self.arena.f64_tbl))
+                .ok()
+                .and_then(crate::indexing::constant_key_alternatives)
+                .map(HeapCellValue::from)
+                .unwrap_or(addr)
+        } else {
+            addr
+        }
+    }
+
     #[inline(always)]
     pub(crate) fn select_switch_on_structure_index(
         &self,
@@ -1451,19 +1469,7 @@ impl Machine {
                 IndexingLine::Indexing(IndexingInstruction::SwitchOnConstant(hm)) => {
                     // let lit = self.machine_st.constant_to_literal(addr);
 
-                    // integers (and integral rationals) that fit a fixnum are always
-                    // indexed under their fixnum key (see constant_key_alternatives);
-                    // a run-time bignum cell holding such a value, e.g. the result of
-                    // 2^60 - 2^60 + 2, has to be looked up under that key as well.
-                    let key = if addr.get_tag() == HeapCellValueTag::Cons {
-                        Literal::try_from((addr, &self.machine_st.arena.f64_tbl))
-                            .ok()
-                            .and_then(crate::indexing::constant_key_alternatives)
-                            .map(HeapCellValue::from)
-                            .unwrap_or(addr)
-                    } else {
-                        addr
-                    };
+                    let key = self.machine_st.switch_on_constant_key(addr);
 
                     let offset = match hm.get(&key) {
                         Some(offset) => *offset,
